@@ -9,6 +9,21 @@ CHECKS = {
    note="Trusts oracles/prims.py (validated against node 20 at development time on 70 000 conversions; node is never used by the check) and that eval() hands primitives back unchanged.",
    ref="4/C06"),
 }
+CHECKS["C01"] = dict(
+   technique="generated programs wrap(site(spinner)) under a substituted virtual clock; oracle = stop class + exact clock-read accounting + longest unpolled CPU stretch",
+   text="Every non-terminating construct (loops, recursion, regex backtracking loops through every regex API, callbacks) is placed at every place script code can run (functions, constructors, accessors, conversions, callbacks of every discovered callback-taking built-in, call/apply/bind, eval, new Function, catch/finally), wrapped in every try/catch/finally shape, and run under a virtual clock in which T is a number of clock reads. The oracle demands TimeLimitError (never a value, another error or a host exception), at most T/delta+10 clock reads, no CPU stretch longer than 2 s without a clock read and no hang. Exhaustive over the single-level product in thorough, stratified in quick, plus random nested compositions and a real-clock subset.",
+   note="Assumes the engine reads time through time.monotonic/perf_counter (substituted before import; otherwise only the CPU/real-clock clauses judge). Single native operations on huge operands are out of scope by the property text.",
+   ref="4/C01")
+CHECKS["C16"] = dict(
+   technique="exhaustive (method, receiver, argument) grid + Hypothesis random receivers against a transcription of the ECMAScript String methods",
+   text="All 22 discovered String.prototype methods plus length, indexing, String() and fromCharCode x 23 receivers x full argument grids (123 427 cells) are compared, typed, with an independent line-by-line model (validated against node on 196 000 cases at development time); value, receiver unchanged and error class are judged; Hypothesis adds longer receivers and near-miss needles.",
+   note="Trusts oracles/strref.py. Non-ASCII case mapping accepts the ES or the documented ASCII-only result. Regex arguments are judged by C20.",
+   ref="4/C16")
+CHECKS["C18"] = dict(
+   technique="boundary + seeded random doubles and grammar-generated numeric strings through every conversion path against exact-rational and grammar reference models; Math special-point tables with a 1-ulp predicate",
+   text="Number->string (String, concatenation, toString(radix), toFixed/toExponential/toPrecision for all digit counts, join, JSON), string->number (Number, unary plus, arithmetic, parseInt x radices, parseFloat), numeric literals and all discovered Math functions are compared with reference models using fractions.Fraction arithmetic and explicit grammars; ~7e5 cases in quick, 1.2e7 in thorough. Exact where ECMAScript is exact, validity predicates (reads back within 1 ulp) where it is implementation-approximated.",
+   note="Trusts oracles/numfmt.py, numparse.py, mathref.py, prims.py (0 disagreements with node on the exactly specified cases at development time).",
+   ref="4/C18")
 NA = {}
 m = {
  "version": 1,
